@@ -89,7 +89,7 @@ def setup():
         p = os.path.join(SVERIF, f)
         s = open(p).read().replace('"/repo"', '"%s"' % SREPO)
         open(p, "w").write(s)
-    rc, out = sh("./check setup", cwd=SVERIF)
+    rc, out = sh("FG_DEV=1 ./check setup", cwd=SVERIF)
     if rc != 0:
         print("scratch harness does not build", out[-2000:]); sys.exit(2)
 
@@ -161,7 +161,7 @@ def main():
             killed_by = []
             inconclusive = []
             for c in FILES[site["file"]]:
-                rc, o = sh("FG_CASES=%d FG_THREAD_CASES=1500 ./check %s quick" % (a.cases, c), cwd=SVERIF, timeout=1800)
+                rc, o = sh("FG_DEV=1 FG_CASES=%d FG_THREAD_CASES=1500 ./check %s quick" % (a.cases, c), cwd=SVERIF, timeout=1800)
                 if rc == 1:
                     first = [l for l in o.splitlines() if l.startswith("violation:")]
                     killed_by.append((c, first[0][:160] if first else ""))
